@@ -1,1 +1,212 @@
-// harnesses for automerge/src/storage/parse.rs
+// G-INPUT: parser cursor and combinators (child module of automerge::storage::parse).
+use super::*;
+
+const B: usize = 6;
+
+/// An arbitrary *valid* Input over a 6-byte buffer: `bytes` is the suffix of `original` starting
+/// at `position` (what Input::new followed by any sequence of takes/truncate produces).
+fn any_valid_input(buf: &[u8; B]) -> (Input<'_>, usize, usize) {
+    let end: usize = kani::any();
+    let pos: usize = kani::any();
+    kani::assume(end <= B && pos <= end);
+    (
+        Input {
+            bytes: &buf[pos..end],
+            position: pos,
+            original: &buf[..end],
+        },
+        pos,
+        end,
+    )
+}
+
+fn valid(i: &Input<'_>) -> bool {
+    i.position <= i.original.len()
+        && i.bytes.len() == i.original.len() - i.position
+        && (i.bytes.is_empty() || std::ptr::eq(i.bytes.as_ptr(), i.original[i.position..].as_ptr()))
+}
+
+/// One step of each taking combinator from an arbitrary valid state: never reads outside the
+/// buffer, returns exactly the next bytes, advances by exactly that many, fails with the exact
+/// shortfall otherwise, and leaves a valid state.
+#[kani::proof]
+#[kani::unwind(8)]
+fn input_take_steps() {
+    let buf: [u8; B] = kani::any();
+    let (i, pos, end) = any_valid_input(&buf);
+    assert!(valid(&i));
+    let avail = end - pos;
+    assert_eq!(i.is_empty(), avail == 0);
+    assert_eq!(i.unconsumed_bytes().len(), avail);
+    assert_eq!(i.bytes().len(), end);
+    // take1
+    match take1::<()>(i) {
+        Ok((j, b)) => {
+            assert!(avail >= 1 && b == buf[pos]);
+            assert!(valid(&j) && j.position == pos + 1 && j.bytes.len() == avail - 1);
+        }
+        Err(ParseError::Incomplete(Needed::Size(k))) => assert!(avail == 0 && k.get() == 1),
+        Err(_) => panic!("take1 has no other error"),
+    }
+    // take4
+    match take4::<()>(i) {
+        Ok((j, a)) => {
+            assert!(avail >= 4);
+            assert!(a[0] == buf[pos] && a[1] == buf[pos + 1] && a[2] == buf[pos + 2] && a[3] == buf[pos + 3]);
+            assert!(valid(&j) && j.position == pos + 4);
+        }
+        Err(ParseError::Incomplete(Needed::Size(k))) => assert!(avail < 4 && k.get() == 4 - avail),
+        Err(_) => panic!(),
+    }
+    // take_n with an arbitrary (wire-controlled) length: compared, never allocated
+    let n: usize = kani::any();
+    match take_n::<()>(n, i) {
+        Ok((j, s)) => {
+            assert!(n <= avail && s.len() == n);
+            assert!(n == 0 || (s[0] == buf[pos] && s[n - 1] == buf[pos + n - 1]));
+            assert!(valid(&j) && j.position == pos + n && j.bytes.len() == avail - n);
+            kani::cover!(n == avail && n > 0);
+        }
+        Err(ParseError::Incomplete(Needed::Size(k))) => {
+            assert!(n > avail && k.get() == n - avail);
+            kani::cover!(n == usize::MAX);
+        }
+        Err(_) => panic!(),
+    }
+    // rest
+    match i.rest::<()>() {
+        Ok((j, s)) => {
+            assert!(s.len() == avail && j.is_empty() && valid(&j) && j.position == end);
+        }
+        Err(_) => panic!(),
+    }
+    // range_of reports the consumed range in absolute positions
+    let k: usize = kani::any();
+    kani::assume(k <= avail);
+    match range_of(|x| take_n::<()>(k, x), i) {
+        Ok((_, r)) => assert!(r.range.start == pos && r.range.end == pos + k),
+        Err(_) => panic!(),
+    }
+    kani::cover!(avail == 0);
+    kani::cover!(avail == B);
+}
+
+/// split(len) + reset, the way Chunk::parse and load_changes walk concatenated chunks: `first`
+/// sees exactly the next min(len, available) bytes and `remaining.reset()` exactly what follows.
+#[kani::proof]
+#[kani::unwind(8)]
+fn input_split_then_reset() {
+    let buf: [u8; B] = kani::any();
+    let (i, pos, end) = any_valid_input(&buf);
+    let avail = end - pos;
+    let len: usize = kani::any();
+    let m = if len > avail { avail } else { len };
+    let Split { first, remaining } = i.split(len);
+    assert!(valid(&first));
+    assert!(first.position == pos && first.bytes.len() == m && first.original.len() == pos + m);
+    assert!(m == 0 || (first.bytes[0] == buf[pos] && first.bytes[m - 1] == buf[pos + m - 1]));
+    let next = remaining.reset();
+    assert!(valid(&next) && next.position == 0);
+    assert_eq!(next.bytes.len(), avail - m);
+    assert!(avail - m == 0 || (next.bytes[0] == buf[pos + m] && next.bytes[avail - m - 1] == buf[end - 1]));
+    assert_eq!(remaining.is_empty(), avail == m);
+    // truncate alone
+    let t = i.truncate(len);
+    assert!(valid(&t) && t.bytes.len() == m && t.position == pos);
+    kani::cover!(len > avail);
+    kani::cover!(len < avail && len > 0);
+    kani::cover!(len == avail && avail > 0);
+}
+
+/// length_prefixed_bytes: the length comes from the wire; Ok only if that many bytes follow.
+#[kani::proof]
+#[kani::unwind(12)]
+fn input_length_prefixed_bytes() {
+    let buf: [u8; B] = kani::any();
+    match length_prefixed_bytes::<leb128::Error>(Input::new(&buf)) {
+        Ok((j, s)) => {
+            let used = B - j.unconsumed_bytes().len();
+            assert!(s.len() < used && used <= B);
+            assert!(valid(&j));
+            // one-byte length prefixes are the only ones that can fit in 6 bytes
+            assert!(buf[0] < 0x80 && s.len() == buf[0] as usize && used == 1 + s.len());
+            assert!(s.is_empty() || (s[0] == buf[1] && s[s.len() - 1] == buf[s.len()]));
+            kani::cover!(s.len() == 5);
+            kani::cover!(s.is_empty());
+        }
+        Err(_) => {
+            kani::cover!(buf[0] == 6);
+            kani::cover!(buf[0] == 0xff && buf[1] == 0xff);
+        }
+    }
+}
+
+/// length_prefixed(g): the element count comes from the wire (any u64) but every iteration must
+/// consume input, so over an n-byte buffer the loop runs at most n+1 times (unwind = budget) and
+/// nothing is allocated from the count. Element parser: actor_id (>= 1 byte each).
+#[kani::proof]
+#[kani::unwind(9)]
+#[kani::stub(<crate::ActorId as std::convert::From<&[u8]>>::from, crate::types::verif_kani::stub_actor_from_slice)]
+fn input_length_prefixed_actor_ids_budget() {
+    let buf: [u8; 5] = kani::any();
+    let r = length_prefixed(actor_id::<leb128::Error>)(Input::new(&buf));
+    match r {
+        Ok((j, v)) => {
+            assert!(v.len() <= 4);
+            assert!(v.len() + 1 <= 5 - j.unconsumed_bytes().len());
+            kani::cover!(v.len() == 4);
+            kani::cover!(v.is_empty());
+            std::mem::forget(v);
+        }
+        Err(e) => {
+            kani::cover!(buf[0] == 0xff);
+            std::mem::forget(e);
+        }
+    }
+}
+
+/// Same with 32-byte change hashes as elements (sync heads / deps): 40-byte input, any count.
+#[kani::proof]
+#[kani::unwind(12)]
+fn input_length_prefixed_hashes_budget() {
+    let buf: [u8; 40] = kani::any();
+    let r = length_prefixed(change_hash::<leb128::Error>)(Input::new(&buf));
+    match r {
+        Ok((j, v)) => {
+            assert!(v.len() <= 1);
+            if v.len() == 1 {
+                assert!(buf[0] == 1 && j.unconsumed_bytes().len() == 7);
+                assert!(v[0].0[0] == buf[1] && v[0].0[31] == buf[32]);
+            } else {
+                assert!(buf[0] == 0);
+            }
+            kani::cover!(v.len() == 1);
+            kani::cover!(v.is_empty());
+            std::mem::forget(v);
+        }
+        Err(e) => {
+            kani::cover!(buf[0] == 2);
+            std::mem::forget(e);
+        }
+    }
+}
+
+/// apply_n with a large n stops at the first failing element.
+#[kani::proof]
+#[kani::unwind(8)]
+fn input_apply_n_budget() {
+    let buf: [u8; 4] = kani::any();
+    let n: usize = kani::any();
+    let r = apply_n(n, take1::<()>)(Input::new(&buf));
+    match r {
+        Ok((j, v)) => {
+            assert!(n <= 4 && v.len() == n && j.unconsumed_bytes().len() == 4 - n);
+            kani::cover!(n == 4);
+            std::mem::forget(v);
+        }
+        Err(_) => {
+            assert!(n > 4);
+            kani::cover!(n == usize::MAX);
+        }
+    }
+}
